@@ -36,7 +36,7 @@ import (
 func init() {
 	core.Register(&core.Check{
 		ID:   "C15",
-		Rule: "layers: (L1) Schema.VisitJSON in plain / request (defaults on) / response modes on shared schemas with defaults, patterns, formats and compositions; (L2) FindRoute + ValidateRequest + ValidateResponse through gorillamux and legacy routers on shared generated documents, 4/16/64 goroutines, messages drawn from C10's generator (mostly routable), fresh documents and never-seen patterns in every round so that first-use paths run concurrently; the same route held across later calls; (L3) openapi3gen.NewSchemaRefForValue on shared, distinct and freshly built (reflect.StructOf) types from a start barrier. Every concurrent call's outcome is compared with the sequential baseline computed in the same process; the document and router are fingerprinted (exported and unexported fields) before and after; the workers are built with -race and every report is collected. L4: one Validator.Middleware handler (strict and non-strict) serving 8/32/64 goroutines x 25 requests each (valid, stopped at the gate, 404 path), the handler writing request-specific status, header and body in pieces: every client must receive exactly what its own handler invocation wrote. Distinct = (layer, document/type, operation pair observed overlapping); non-trivial = two operations were in flight at the same time. L2 outcomes include the request body left for the next handler, read after all calls returned.",
+		Rule: "layers: (L1) Schema.VisitJSON in plain / request (defaults on) / response modes on shared schemas with defaults, patterns, formats and compositions; (L2) FindRoute + ValidateRequest + ValidateResponse through gorillamux and legacy routers on shared generated documents, 4/16/64 goroutines, messages drawn from C10's generator (mostly routable), fresh documents and never-seen patterns in every round so that first-use paths run concurrently; the same route held across later calls; (L3) openapi3gen.NewSchemaRefForValue on shared, distinct and freshly built (reflect.StructOf) types from a start barrier. Every concurrent call's outcome is compared with the sequential baseline computed in the same process; the document and router are fingerprinted (exported and unexported fields) before and after; the workers are built with -race and every report is collected. L4: one Validator.Middleware handler (strict and non-strict) serving 8/32/64 goroutines x 25 requests each (valid, stopped at the gate, 404 path), the handler writing request-specific status, header and body in pieces: every client must receive exactly what its own handler invocation wrote. Distinct = (layer, document/type, operation pair observed overlapping); non-trivial = two operations were in flight at the same time. L2 outcomes include the request body left for the next handler, read after all calls returned. L3 also generates, first after the barrier, four never-seen instantiations per round of a generic self-referential struct (512 in all).",
 		Assumptions: []string{
 			"the race detector sees the happens-before relation of the executions produced, not of all schedules",
 			"outcome equality compares verdict (nil / error class and text), routed path+method+operation identity, and generated schema JSON",
